@@ -105,6 +105,55 @@ def real_eval(cfg, lin, B, seed):
     return y.reshape(-1).tolist(), tuple(y.shape)
 
 
+def real_eval_safe(ctx, cfg, lin, B, seed):
+    """real_eval; an exception of the real forward on an accepted configuration is a concrete failing input"""
+    try:
+        return real_eval(cfg, lin, B, seed)[0]
+    except Exception as e:
+        ctx.count("forward-raises")
+        violation_once(ctx, "Linear/forward-raises", dict(config=cfg.to_json(), B=B, input_seed=seed, error=type(e).__name__ + ": " + str(e).strip().split("\n")[-1][:300],
+                                                         bias_numel=getattr(lin, "bias_numel", None), instructions=[tuple(i)[:2] for i in lin.instructions],
+                                                         expected="a configuration accepted by the guards and outside the recorded defect classes evaluates"), found=True)
+        return None
+
+
+def bias_oracle(cfg, lin):
+    """the statement's bias clause on the real module alone: bias instructions only on even scalars (0e), exactly on the requested
+    ones; f(0) with zero weights and unit biases is non-zero only there; with unit biases the inversion still commutes.
+    returns a dict of problems (empty = fine)"""
+    import torch
+    prob = {}
+    outs = [i.i_out for i in lin.instructions if i.i_in == -1]
+    non0e = [io for io in outs if not (lin.irreps_out[io].ir.l == 0 and lin.irreps_out[io].ir.p == 1)]
+    if non0e:
+        prob["bias_instructions_on_non_0e_blocks"] = [(io, str(lin.irreps_out[io])) for io in non0e]
+    exp_numel = sum(lin.irreps_out[io].mul for io in outs if io not in non0e)
+    if lin.bias_numel != exp_numel:
+        prob["bias_numel"] = dict(got=lin.bias_numel, expected_from_0e_blocks=exp_numel)
+    try:
+        sx, sw, sb = shapes(cfg, lin, 2)
+        x0, w0, b1 = torch.zeros(sx, dtype=torch.float64), torch.zeros(sw, dtype=torch.float64), torch.ones(sb, dtype=torch.float64)
+        f0 = lin(x0, w0, b1)
+        bad = []
+        for io, ((mul, ir), sl) in enumerate(zip(lin.irreps_out, lin.irreps_out.slices())):
+            if bool((f0[..., sl] != 0).any()) and not (ir.l == 0 and ir.p == 1):
+                bad.append((io, f"{mul}x{ir}"))
+        if bad:
+            prob["f(0)_nonzero_on_non_0e_blocks"] = bad
+        if lin.irreps_in.dim and lin.irreps_out.dim:
+            g = torch.Generator().manual_seed(5)
+            x = torch.randn(sx, generator=g, dtype=torch.float64)
+            w = torch.randn(sw, generator=g, dtype=torch.float64)
+            R = -torch.eye(3, dtype=torch.float64)
+            Din, Dout = lin.irreps_in.D_from_matrix(R).to(torch.float64), lin.irreps_out.D_from_matrix(R).to(torch.float64)
+            err = float((lin(x @ Din.T, w, b1) - lin(x, w, b1) @ Dout.T).abs().max())
+            if err > EQ_TOL:
+                prob["inversion_residual_with_unit_biases"] = err
+    except Exception as e:
+        prob.setdefault("forward_error", type(e).__name__ + ": " + str(e).strip().split("\n")[-1][:200])
+    return prob
+
+
 def vec_close(a, b, tol=TOL):
     if len(a) != len(b):
         return False
@@ -313,26 +362,44 @@ def clause_equivariance(ctx, cfg, lin, rng, torch, o3, key_prefix="EQUIV"):
     """f(x D_in^T) = f(x) D_out^T with weights and biases fixed"""
     lead = rng.choice([(3,), (2, 2), (1,)])
     x, w, b = rand_inputs(cfg, lin, lead, rng, torch)
-    R = rand_rotation(rng, torch, o3)
-    if rng.random() < 0.5:
-        R = -R
-    if lin.irreps_in.dim == 0 or lin.irreps_out.dim == 0:
-        Din = torch.zeros(lin.irreps_in.dim, lin.irreps_in.dim, dtype=torch.float64) if lin.irreps_in.dim == 0 else lin.irreps_in.D_from_matrix(R).to(torch.float64)
-        Dout = torch.zeros(lin.irreps_out.dim, lin.irreps_out.dim, dtype=torch.float64) if lin.irreps_out.dim == 0 else lin.irreps_out.D_from_matrix(R).to(torch.float64)
-    else:
-        Din = lin.irreps_in.D_from_matrix(R).to(torch.float64)
-        Dout = lin.irreps_out.D_from_matrix(R).to(torch.float64)
-    y = lin(x, w, b)
-    y2 = lin(x @ Din.T, w, b)
-    err = float((y2 - y @ Dout.T).abs().max()) if y.numel() else 0.0
-    scale = 1.0 + (float(y.abs().max()) if y.numel() else 0.0)
-    ctx.case(f"{key_prefix} {cfg.describe()} det={'-' if float(torch.det(R)) < 0 else '+'}", nontrivial=lin.weight_numel > 0)
-    ctx.count(f"{key_prefix}:{'inversion' if float(torch.det(R)) < 0 else 'rotation'}")
-    if not (err <= EQ_TOL * scale):
-        violation_once(ctx, "Linear/equivariance", dict(config=cfg.to_json(), R=R.tolist(), x=x.tolist(), w=w.tolist(), b=b.tolist(), error=err,
-                                                   expected="f(x D_in^T) == f(x) D_out^T"), found=True)
-        return False
-    return True
+    ok = True
+    R0 = rand_rotation(rng, torch, o3)
+    for R in (R0, -R0):          # a rotation and the same rotation composed with the inversion; weights AND biases random, fixed
+        if lin.irreps_in.dim == 0 or lin.irreps_out.dim == 0:
+            Din = torch.zeros(lin.irreps_in.dim, lin.irreps_in.dim, dtype=torch.float64) if lin.irreps_in.dim == 0 else lin.irreps_in.D_from_matrix(R).to(torch.float64)
+            Dout = torch.zeros(lin.irreps_out.dim, lin.irreps_out.dim, dtype=torch.float64) if lin.irreps_out.dim == 0 else lin.irreps_out.D_from_matrix(R).to(torch.float64)
+        else:
+            Din = lin.irreps_in.D_from_matrix(R).to(torch.float64)
+            Dout = lin.irreps_out.D_from_matrix(R).to(torch.float64)
+        y = lin(x, w, b)
+        y2 = lin(x @ Din.T, w, b)
+        err = float((y2 - y @ Dout.T).abs().max()) if y.numel() else 0.0
+        scale = 1.0 + (float(y.abs().max()) if y.numel() else 0.0)
+        improper = float(torch.det(R)) < 0
+        ctx.case(f"{key_prefix} {cfg.describe()} det={'-' if improper else '+'}", nontrivial=lin.weight_numel > 0)
+        ctx.count(f"{key_prefix}:{'inversion' if improper else 'rotation'}" + ("/bias" if lin.bias_numel else ""))
+        if not (err <= EQ_TOL * scale):
+            ok = False
+            violation_once(ctx, "Linear/equivariance", dict(config=cfg.to_json(), improper=improper, R=R.tolist(), x=x.tolist(), w=w.tolist(), b=b.tolist(), error=err,
+                                                           bias_numel=lin.bias_numel, bias_outs=[i.i_out for i in lin.instructions if i.i_in == -1],
+                                                           expected="f(x D_in^T) == f(x) D_out^T (weights and biases fixed)"), found=True)
+    return ok
+
+
+def clause_bias(ctx, cfg, lin, rng, torch, o3):
+    """biases sit exactly on the requested even scalars"""
+    prob = bias_oracle(cfg, lin)
+    mask = cfg.bias_mask()
+    outs = [i.i_out for i in lin.instructions if i.i_in == -1]
+    want = [io for io, b_ in enumerate(mask) if b_]
+    if outs != want:
+        prob["bias_outs"] = dict(got=outs, requested_0e_blocks=want)
+    ctx.case(f"BIAS {cfg.describe()}", nontrivial=bool(outs))
+    ctx.count("BIAS:" + ("with-0o-output" if any(l == 0 and p == -1 for _, l, p in cfg.out) else "no-0o-output") + ("/biased" if outs else ""))
+    if prob:
+        violation_once(ctx, "Linear/bias-on-non-even-scalar", dict(config=cfg.to_json(), problems=prob,
+                                                                  expected="biases only on the requested 0e blocks (biases=True: every 0e block, nothing else)"), found=True)
+    return not prob
 
 
 def clause_weights(ctx, cfg, rng, torch, o3):
@@ -612,7 +679,10 @@ def corr_programs(ctx, info, okn, registry_ok, failed, quick):
                 ctx.obligation(f"driver:run:{n}", False, o[:300])
                 continue
             prog, spec, block = parse_vec(m.group(2)), parse_vec(m.group(3)), parse_vec(m.group(4))
-            got, shape = real_eval(cfg, lin, F.B, s)
+            got = real_eval_safe(ctx, cfg, lin, F.B, s)
+            if got is None:
+                reported.add(n)
+                continue
             ctx.traces += 1
             ctx.case(f"RUN {cfg.describe()} seed={s}", nontrivial=lin.weight_numel > 0, sample_every=40)
             ctx.count("RUN:" + ("zero-output" if not any(got) else "nonzero"))
@@ -651,8 +721,10 @@ def corr_programs(ctx, info, okn, registry_ok, failed, quick):
         if not good and n not in reported:
             # property-level oracle for the mask: a component with mask 0 must vanish for every input; a component with mask 1
             # must not be identically zero (the driver's exact symbolic execution says which components are the zero polynomial)
-            got, _ = real_eval(cfg, lin, F.B, 3)
-            got2, _ = real_eval(cfg, lin, F.B, 4)
+            got, got2 = real_eval_safe(ctx, cfg, lin, F.B, 3), real_eval_safe(ctx, cfg, lin, F.B, 4)
+            if got is None or got2 is None:
+                reported.add(n)
+                continue
             dO = lin.irreps_out.dim
             wrong0 = [t for t in range(len(got)) if dO and mask[t % dO] == "0" and got[t] != 0.0]
             wrong1 = [t for t in range(dO) if mask[t] == "1" and m.group(6)[t:t + 1] == "1" and got[t] == 0.0 and got2[t] == 0.0]
@@ -684,13 +756,30 @@ def py_expected_error(cfg):
     return "valid"
 
 
+def fixed_bias_cases(F):
+    """deterministic CTOR cases around the bias guard: outputs 0e / 0o / 1o / 1e, `biases=True`, every single-True mask, wrong length"""
+    E, O = 1, -1
+    inn = [(2, 0, E), (3, 0, O), (1, 1, O), (1, 1, E)]
+    out = [(2, 0, E), (2, 0, O), (1, 1, O), (1, 1, E), (1, 0, E)]
+    masks = [True, False] + [[j == i for j in range(len(out))] for i in range(len(out))] + [[True, False, False, False, True], [True, True, False, False, False],
+                                                                                         [True, False, False, False], [False] * 6]
+    cases = []
+    for k, mk in enumerate(masks):
+        for norm, ch in (("element", (None, None)), ("path", (2, 2))):
+            cases.append(F.LConfig(f"b{k}", inn, out, None, norm, mk, ch[0], ch[1], True, optimize=(k % 2 == 0)))
+    cases.append(F.LConfig("b-only-odd", [(2, 0, O)], [(3, 0, O)], None, "element", True))
+    cases.append(F.LConfig("b-odd-mask", [(2, 0, O)], [(3, 0, O)], None, "element", [True]))
+    return cases
+
+
 def corr_ctor_eval(ctx, o3, quick):
     import torch
     import linear_family as F
     rng = random.Random(ctx.rng.randrange(1 << 30))
     n_ctor = 150 if quick else 1500
     n_eval = 120 if quick else 1200
-    cfgs = [F.random_config(rng, f"c{i}", allow_invalid=True) for i in range(n_ctor)]
+    cfgs = fixed_bias_cases(F) + [F.random_config(rng, f"c{i}", allow_invalid=True) for i in range(n_ctor)]
+    n_ctor = len(cfgs)
     evals = []
     while len(evals) < n_eval:
         c = F.repair(F.random_config(rng, f"e{len(evals)}"))
@@ -706,15 +795,33 @@ def corr_ctor_eval(ctx, o3, quick):
         ctx.count("CTOR:" + (exc or bucket))
         if exc is not None:
             continue  # a known-defective class: reported by report_defects with its own witness
+        if any(l == 0 and p == -1 for _, l, p in c.out) and c.biases is not False:
+            ctx.count("CTOR:0o-output-with-bias-request")
         if o.startswith("ctor error:"):
             if r[0] != o[5:]:
+                if r[0] == "ok" and o == "ctor error:AssertionError":
+                    # the guards on the bias mask let something through: does the module put a bias off the even scalars?
+                    prob = bias_oracle(c, r[1])
+                    if prob:
+                        violation_once(ctx, "Linear/bias-on-non-even-scalar", dict(config=c.to_json(), problems=prob, constructor="accepted",
+                                                                                  expected="AssertionError: a bias mask selecting a non-0e output (or of the wrong length) is rejected"), found=True)
+                        continue
                 bad.append((c, o, r[0] + " " + str(r[1])[:120]))
             continue
         m = re.match(r"ctor ok weight_numel=(\d+) bias_numel=(\d+) ins=(\S*) bias_outs=(\S*) mask=(\S*) coefs=(.*)$", o)
+        if r[0] != "ok" and m:
+            violation_once(ctx, "Linear/constructor-raises", dict(config=c.to_json(), real=r[0] + " " + str(r[1])[:200],
+                                                                 expected="a configuration that passes every guard and lies outside the recorded defect classes can be built"), found=True)
+            bad.append((c, o, r[0] + " " + str(r[1])[:120]))
+            continue
         if r[0] != "ok" or not m:
             bad.append((c, o, r[0] + " " + str(r[1])[:120]))
             continue
         lin = r[1]
+        prob = bias_oracle(c, lin)
+        if prob:
+            violation_once(ctx, "Linear/bias-on-non-even-scalar", dict(config=c.to_json(), problems=prob, model=o,
+                                                                      expected="biases only on the requested 0e blocks (biases=True: every 0e block, nothing else)"), found=True)
         ins = ",".join(f"{i.i_in}:{i.i_out}" for i in lin.instructions if i.i_in != -1)
         bo = ",".join(str(i.i_out) for i in lin.instructions if i.i_in == -1)
         mask = "".join("1" if v else "0" for v in lin.output_mask.reshape(-1).tolist())
@@ -737,7 +844,10 @@ def corr_ctor_eval(ctx, o3, quick):
             continue
         lin = r[1]
         exp = parse_vec(o[5:])
-        got, _ = real_eval(c, lin, B, s)
+        got = real_eval_safe(ctx, c, lin, B, s)
+        if got is None:
+            nbad += 1
+            continue
         ctx.traces += 1
         ctx.case(f"EVAL {c.describe()} B={B} seed={s}", nontrivial=lin.weight_numel > 0 and any(got), sample_every=50)
         ctx.count("EVAL:" + ("channels" if c.f_in is not None else "plain") + ("/per-sample" if not c.shared else "/shared") +
@@ -762,12 +872,21 @@ def clauses(ctx, o3, torch, quick, info, names, tag=""):
     for c in cfgs:
         r = attempt(lambda: c.build(o3))
         if r[0] != "ok":
-            violation_once(ctx, "corr:CLAUSES", dict(config=c.to_json(), real=r[0] + " " + str(r[1])[:200], detail="accepted configuration could not be built"), found=False)
+            violation_once(ctx, "Linear/constructor-raises", dict(config=c.to_json(), real=r[0] + " " + str(r[1])[:200],
+                                                                 expected="a configuration that passes every guard and lies outside the recorded defect classes can be built"), found=True)
             continue
         lin = r[1]
         ctx.count("clauses" + (":" + tag if tag else ""))
-        clause_equivariance(ctx, c, lin, rng, torch, o3, "EQUIV" + ("-" + tag if tag else ""))
-        clause_batch(ctx, c, lin, rng, torch, o3)
-        clause_views(ctx, c, lin, rng, torch, o3)
-        clause_weights(ctx, c, rng, torch, o3)
-        clause_channels(ctx, c, rng, torch, o3)
+        for name, f in (("bias", lambda: clause_bias(ctx, c, lin, rng, torch, o3)),
+                        ("equivariance", lambda: clause_equivariance(ctx, c, lin, rng, torch, o3, "EQUIV" + ("-" + tag if tag else ""))),
+                        ("batch", lambda: clause_batch(ctx, c, lin, rng, torch, o3)),
+                        ("views", lambda: clause_views(ctx, c, lin, rng, torch, o3)),
+                        ("weights", lambda: clause_weights(ctx, c, rng, torch, o3)),
+                        ("channels", lambda: clause_channels(ctx, c, rng, torch, o3))):
+            try:
+                f()
+            except Exception as e:   # the real code raised on an accepted configuration outside the recorded defect classes
+                ctx.count(f"clause-raises:{name}")
+                violation_once(ctx, f"Linear/{name}-clause-raises", dict(config=c.to_json(), clause=name, error=type(e).__name__ + ": " + str(e).strip().split("\n")[-1][:300],
+                                                                        bias_numel=lin.bias_numel, bias_outs=[i.i_out for i in lin.instructions if i.i_in == -1],
+                                                                        expected="the clause evaluates on every accepted configuration"), found=True)
